@@ -18,8 +18,8 @@ def run(ctx):
         if j["else_disallowed"] and v["restricted"]:
             ctx.violation("not-uri-disallowed", "a refused request did not report the URI-disallowed error (%s)" % run["result"], case_of(v, run))
     # SDK operations that can issue requests, run under a restrictive allow-list: nothing unlisted may reach the transport
-    ops = [{"cfg": {"rmf": True, "ocsp": True, "csf": "all", "tsa": t}, "asset": a, "op": o}
-           for t in (True, False) for a in ("remote_only", "remote_embedded", "embedded") for o in ("read", "sign", "ingredient")]
+    ops = [{"cfg": {"rmf": True, "ocsp": True, "csf": "all", "cso": True, "tsa": t}, "asset": a, "op": o}
+           for t in (True, False) for a in ("remote_only", "remote_embedded", "embedded", "ocsp_signed") for o in ("read", "sign", "ingredient")]
     recs = run_ops(ctx, ops, "jpg" if ctx.quick else "jpg,png,webp", allowlist=True)
     for x in recs:
         for q in x.get("requests", []):
